@@ -464,6 +464,22 @@ def r_panic_edges(F, R):
                             b.locals[a0["place"]["l"]]["ty"]["s"] == "usize"
                     dst = ctx.body.locals[t["dest"]["l"]]["ty"]["s"]
                     ok = ok and dst in ("u64", "u128", "usize")
+                    if not ok:
+                        from expr import nobb as _nb3
+                        a_ = _nb3(arg)
+                        alts_ = a_[1] if a_[0] == "phi" else (a_,)
+                        internal = all((x[0] == "agg" and str(x[1]).startswith(("Result::Ok", "Option::Some"))) or
+                                       (x[0] == "call" and x[1][1] in ("from_residual",)) or
+                                       (x[0] == "call" and x[1][0] not in ("Option", "Result", "Vec", "slice", "Iterator", "BTreeMap")
+                                        and b.self_adt and x[1][0] == short(b.self_adt)) or
+                                       (x[0] == "call" and x[1][1] in ("push", "index", "extend") and x[1][0] in ("IndexContainer", "IndexList", "Stride"))
+                                       for x in alts_) and bool(alts_)
+                        if internal:
+                            # `self.try_push(x).unwrap()`: the crate's own fallible twin, unwrapped at the public boundary;
+                            # which of its errors can arise is value-level (on the pinned tree: a usize -> u64 conversion)
+                            R.undecided_site("R-PANIC", b.label(), "unwrap of an internal Result at %s (%s): whether its error can arise "
+                                             "is not decided" % (where, show(a_)[:60]))
+                            continue
                     R.check("R-PANIC", b.label(), ok,
                             construct="%s of %s" % (tag[1], show(arg)), where=where,
                             detail="accepted: usize -> %s conversion cannot fail on supported targets" % dst
